@@ -89,7 +89,7 @@ def main():
         })
     m = {
         "version": 1,
-        "setup_cmd": "cd harness && cargo build --offline",
+        "setup_cmd": "cd harness && cargo build --offline && cd ../harness-src && cargo build --offline && cd ../harness-win && cargo build --offline",
         "hooks": {
             "guard": "cargo feature `verif` of the renoir crate (default off); every hook site is #[cfg(feature = \"verif\")]",
             "enable": "harness/Cargo.toml depends on renoir (path /repo) with features = [\"verif\"]; every check starts with an incremental `cargo build --offline` of the harness",
